@@ -2,9 +2,9 @@ use std::cmp::Ordering;
 
 use rusty_common::*;
 use rusty_parser::{AsBareName, Expression, ExpressionPos, Operator, TypeQualifier, UnaryOperator};
-use rusty_variant::Variant;
+use rusty_variant::{Variant, qb_and, qb_or};
 
-use crate::core::{LintError, LintErrorPos};
+use crate::core::{LintError, LintErrorPos, QBNumberCast};
 
 /// A lookup map of resolved constant values.
 pub trait ConstLookup {
@@ -74,6 +74,10 @@ where
             Expression::BinaryExpression(op, left, right, _) => {
                 let v_left = self.eval_const(left)?;
                 let v_right = self.eval_const(right)?;
+                if matches!(*op, Operator::And | Operator::Or) {
+                    // like AND / OR at run time, the operands are first converted to INTEGER
+                    return eval_logical(*op, v_left, v_right).map_err(|e| e.at(right));
+                }
                 (match *op {
                     Operator::Less => v_left
                         .try_cmp(&v_right)
@@ -128,6 +132,16 @@ where
             | Expression::BuiltInFunctionCall(_, _) => Err(LintError::InvalidConstant.at_pos(*pos)),
         }
     }
+}
+
+fn eval_logical(op: Operator, left: Variant, right: Variant) -> Result<Variant, LintError> {
+    let left: i32 = left.try_cast()?;
+    let right: i32 = right.try_cast()?;
+    Ok(Variant::VInteger(if op == Operator::And {
+        qb_and(left, right)
+    } else {
+        qb_or(left, right)
+    }))
 }
 
 impl<S> ConstEvaluator<Box<ExpressionPos>> for S
